@@ -401,6 +401,30 @@ def rdUA : R Bytes := do
   allocate (fromBE l)
   readPad (fromBE l)
 
+/-! ## exec status (`codex.SendSuccess`, `codex.SendFailure`, `codex.getStatus`) -/
+
+inductive XStatus where
+  | conf                      -- the command was started
+  | fail (msg : Bytes)        -- it was not; the error text
+  deriving Repr, DecidableEq
+
+/-- `SendSuccess` writes one byte.  `SendFailure` writes the status byte, a 4-byte field whose
+first two bytes are the length of the text as a 16-bit number, and the text.  It has no error
+path: the length of a text of 65536 bytes or more wraps. -/
+def encXst : XStatus → Bytes
+  | .conf => [1]
+  | .fail m => [2] ++ (toBE 2 (m.length % 65536) ++ [0, 0]) ++ m
+
+/-- `getStatus` (the client's side): every read error is ignored - a short read leaves zero bytes -
+and the text buffer is allocated from the 16-bit length before anything of it is read -/
+def rdXst : R XStatus := do
+  let r ← readPad 1
+  if r = [1] then pure .conf else do
+    let l ← readPad 4
+    allocate (fromBE (l.take 2))
+    let m ← readPad (fromBE (l.take 2))
+    pure (.fail m)
+
 /-! ## port-forward request, at the level (network type, forward type, address string) -/
 
 structure PF where
@@ -468,5 +492,6 @@ def decInitFrame := rdInitFrame.dec
 def decExec := rdExec.dec
 def decUA := rdUA.dec
 def decPF := rdPF.dec
+def decXst := rdXst.dec
 
 end Wire
